@@ -71,6 +71,9 @@ class _Gone:
 
 GONE = _Gone()
 
+GROWERS = {"add_tree", "add_own_tree", "own_copy_to", "copy_to", "shortcut_tree", "add_node", "add_node_ids", "copy_from2", "tree2_copy_to"}
+MAX_MODEL_NODES = 1500
+
 
 class Outcome:
     __slots__ = ("op", "plan", "raised", "retval", "events", "state_changed", "expected_gone")
@@ -303,6 +306,10 @@ class Engine:
     # ------------------------------------------------------------------------------------
     def plan(self, op) -> Plan:
         kind = op[0]
+        if kind in GROWERS and self.model.count() > MAX_MODEL_NODES:
+            # copies of (parts of) a tree that is already big: every one may double it again, a history of them
+            # outgrows what the observers walk (observe.MAX_NODES); such a step is skipped
+            return Plan("na", kind + ":tree-too-large")
         fn = getattr(self, "_op_" + kind)
         return fn(*op[1:])
 
